@@ -1,4 +1,5 @@
 CONSTANT AsCodedReinit = FALSE
+CONSTANT MolSlots = FALSE
 CONSTANT MaxCells = 99
 CONSTANT Depth = 2
 CONSTANT Acts = {"Combine", "MkPart", "MkMol", "PartFilter"}
